@@ -5,6 +5,7 @@
 //   mp    : [iterations]            payload = value            -> per set: action, value
 //   rils  : [trials]                payload = value            -> per set: action, value
 //   move  : [nobj]                  payload = nobj values      -> per set: n { vals, tagkeys, tagvals }
+//   vemix|lsmix|mpmix|rilsmix : nseg { A rules }  one maximiser over different action spaces -> per segment: action, value
 //   ucve  : [logtA]                 payload = mean bonus       -> per set: action, mean, bonus
 // All rule sets of one case are run in order on the SAME maximiser (and, where the API has one,
 // the same graph object); VE additionally shares one process-wide maximiser + graph.
@@ -77,6 +78,32 @@ int main(int argc, char ** argv) {
             unsigned trials = (unsigned) c.nextSize();
             bool force = c.nextSize() != 0;
             runApprox<fb::ReusingIterativeLocalSearch>(c, o, A, [trials, force]{ return fb::ReusingIterativeLocalSearch(0.3, 0.3, trials, force); });
+        } else if (kind == "vemix" || kind == "lsmix" || kind == "mpmix" || kind == "rilsmix") {
+            // ONE maximiser object (and for VE one graph object) used for a sequence of problems
+            // over DIFFERENT action spaces; the leading A is only the first segment's.
+            size_t nseg = c.nextSize();
+            fb::VariableElimination ve; fb::VariableElimination::Graph veGraph(0);
+            fb::LocalSearch ls; fb::MaxPlus mp(5); fb::ReusingIterativeLocalSearch rils(0.3, 0.3, 3, true);
+            for (size_t s = 0; s < nseg; ++s) {
+                Action As = readFactors(c);
+                auto rules = readRules(c);
+                if (kind == "vemix") {
+                    fb::UpdateGraph<fb::VariableElimination>()(veGraph, rules, As);
+                    auto [a, v] = ve(As, veGraph); o.list(a); o << v;
+                } else if (kind == "lsmix") {
+                    auto graph = fb::MakeGraph<fb::LocalSearch>()(rules, As);
+                    fb::UpdateGraph<fb::LocalSearch>()(graph, rules, As);
+                    auto [a, v] = ls(As, graph); o.list(a); o << v;
+                } else if (kind == "mpmix") {
+                    auto graph = fb::MakeGraph<fb::MaxPlus>()(rules, As);
+                    fb::UpdateGraph<fb::MaxPlus>()(graph, rules, As);
+                    auto [a, v] = mp(As, graph); o.list(a); o << v;
+                } else {
+                    auto graph = fb::MakeGraph<fb::ReusingIterativeLocalSearch>()(rules, As);
+                    fb::UpdateGraph<fb::ReusingIterativeLocalSearch>()(graph, rules, As);
+                    auto [a, v] = rils(As, graph); o.list(a); o << v;
+                }
+            }
         } else if (kind == "move") {
             size_t nobj = c.nextSize();
             size_t nsets = c.nextSize();
